@@ -22,7 +22,8 @@ RULE = ('cases = flat machines (C01 generator, finalize_event non-empty so that 
 ASSUMPTIONS = ['callbacks call remove_model only for registered models (guarded in the harness) and trigger only known events',
                'every third case runs without a queue on the re-entrant engine (Reent.v): nested triggers are processed inside the calling callback']
 THEOREMS = ['C05_deferred', 'C05_fifo_once', 'C05_top', 'C05_raise_discards', 'C05_remove_exact', 'C05_head_stays',
-            'C05_nothing_lost', 'C05_example', 'C05_unqueued_nested', 'C05_reentrant_refines_flat', 'C05_hsm_top']
+            'C05_nothing_lost', 'C05_example', 'C05_unqueued_nested', 'C05_reentrant_refines_flat', 'C05_hsm_top',
+            'C05_hsm_unqueued_nested', 'C05_hsm_reentrant_refines']
 
 
 def gen(rng, i, tier):
